@@ -90,7 +90,7 @@ PROPS = {
                      "(it writes $connections through set_key_value, whose store contracts frame the watchers)"],
     ),
     "C15": dict(
-        units=["pending"],
+        units=["pending", "oplogflag"],
         undecided=["real atomics / locks are sequentialised (in production ack, replicated and the counters are all touched under the outer pending_opps write lock)",
                    "end-to-end observation through the cluster (the `ack` handler's closure IS verified - op_acknowledge: the accounting step, whatever the node's role; the rp handler "
                    "and the replication thread's dispatch are covered by the bounded family logthread only)"],
@@ -181,7 +181,7 @@ PROPS = {
                      "sessions are modelled abstractly in the accounting lemmas: a map from session ids to the selected database"],
     ),
     "C04": dict(
-        units=["store", "consensus", "outbox", "parser", "pending", "traffic", "ids"],
+        units=["store", "consensus", "outbox", "parser", "pending", "traffic", "ids", "oplogflag"],
         undecided=["the protocol level of the statement: every delivery order that keeps links FIFO, 2-3 processes, two concurrent clients on the primary - no contract on one call states it; what is "
                    "decided is (a) per step, on the real store operations, that a write / remove / increment is a FUNCTION of the key's cell (text, version, state) and of the line's own "
                    "fields, (b) the machine-checked lemma that two nodes that agree and apply the same sequence of lines in the same order agree after every prefix, for any number of lines, "
